@@ -31,7 +31,6 @@ pub const ENTRIES: &[Entry] = &[
     p28::S_CROSS_COUNT,
     p28::S_VALUE_COUNTS,
     p28::S_KEYED_FOLD,
-    p28::S_KEYED_REDUCE,
     p28::S_KEYED_VEC,
     crate::p32::KS_INTO_SINGLETON_BV,
     crate::p32::W_COUNT_TOP,
